@@ -41,6 +41,8 @@ type PkgOpts struct {
 	// FilterProb / IndexProb override the default probabilities (0.25 / 0.12) of block filters and index modules.
 	FilterProb float64
 	IndexProb  float64
+	// MaxSeg > 0 bounds the segment size the scenario draws (2..MaxSeg); read by the drivers.
+	MaxSeg int
 	// FSBProb: probability that the scenario runs on a chain whose first streamable block is not 0 (scenario-level option,
 	// read by the drivers; GenPkg itself only applies FirstStreamable).
 	FSBProb float64
